@@ -130,6 +130,18 @@ class Escape:
             b = dotted(node.value)
             if b and b.split('.')[-1] in ('Type', 'SolutionStatus') and not isinstance(node.slice, ast.Constant):
                 out.append(('KeyError', 'Enum[name]'))
+        if isinstance(node, ast.Subscript) and isinstance(node.ctx, ast.Load) and isinstance(node.value, ast.Name) \
+                and isinstance(node.slice, (ast.Constant, ast.UnaryOp)) and not isinstance(getattr(node.slice, 'value', None), str):
+            # s[0] / s[-1] on a string captured by a regex group (may be empty): IndexError unless guarded
+            nm = node.value.id
+            captured = False
+            for a in ast.walk(f.node):
+                if isinstance(a, ast.Assign) and any(isinstance(t, ast.Name) and t.id == nm for t in a.targets):
+                    v = a.value
+                    if (isinstance(v, ast.Subscript) and 'groupdict' in text(v.value)) or (isinstance(v, ast.Call) and isinstance(v.func, ast.Attribute) and v.func.attr == 'group'):
+                        captured = True
+            if captured:
+                out.append(('IndexError', 'index of a regex capture'))
         if isinstance(node, ast.Assign) and isinstance(node.targets[0], (ast.Tuple, ast.List)) \
                 and method_call(node.value, 'split', 'rsplit', 'partition'):
             if node.value.func.attr != 'partition':
